@@ -149,7 +149,8 @@ def case_explicit(ctx, p):
             beta, nsite = site_symmetrise(beta, pe, ops)
             adp_type, adp = "Uani", adp_of_beta(beta, cell)
         else:
-            adp_type, adp = None, 0.0
+            # an atom without a displacement type: whatever is left in .adp (readers leave 0.0, a user may leave a number) is not to be used
+            adp_type, adp = None, [0.0, 0.37, 0.05][int(rng.integers(3))]
         spec.append({"label": "%s%d" % (el, i + 1), "el": el, "pos": pos, "pos_exact": [[f.numerator, f.denominator] for f in pe],
                      "adp_type": adp_type, "adp": adp, "occ": float(rng.uniform(0.05, 1.0)), "multi": multi})
         mon.config("site:" + ("special" if multi < o.nsymop else "general"))
